@@ -77,3 +77,82 @@ pub fn private_wire_types(rng: &mut impl Rng) -> Vec<WireType> {
     ]);
     out
 }
+
+// ---------------------------------------------------------------------------------------------
+// Transport layers over a caller-supplied stream.
+pub use crate::mux::verif::{VMux, VMuxConfig, VQueue, VReadHalf, VStream};
+
+use std::{
+    pin::Pin,
+    task::{Context, Poll},
+};
+
+use zksync_concurrency::{ctx, io};
+
+use crate::{frame, noise};
+
+/// `noise::Stream` over any transport.
+pub struct VNoise<S>(noise::Stream<S>);
+
+impl<S: io::AsyncRead + io::AsyncWrite + Unpin> VNoise<S> {
+    pub async fn client(ctx: &ctx::Ctx, s: S) -> ctx::Result<Self> {
+        Ok(Self(noise::Stream::client_handshake(ctx, s).await?))
+    }
+    pub async fn server(ctx: &ctx::Ctx, s: S) -> ctx::Result<Self> {
+        Ok(Self(noise::Stream::server_handshake(ctx, s).await?))
+    }
+    /// Session id (handshake hash).
+    pub fn id(&self) -> Vec<u8> {
+        zksync_consensus_crypto::ByteFmt::encode(&self.0.id())
+    }
+    pub fn inner(&self) -> &S {
+        &self.0
+    }
+}
+
+impl<S: io::AsyncRead + io::AsyncWrite + Unpin> io::AsyncRead for VNoise<S> {
+    fn poll_read(mut self: Pin<&mut Self>, cx: &mut Context<'_>, buf: &mut io::ReadBuf<'_>) -> Poll<io::Result<()>> {
+        Pin::new(&mut self.0).poll_read(cx, buf)
+    }
+}
+
+impl<S: io::AsyncRead + io::AsyncWrite + Unpin> io::AsyncWrite for VNoise<S> {
+    fn poll_write(mut self: Pin<&mut Self>, cx: &mut Context<'_>, buf: &[u8]) -> Poll<io::Result<usize>> {
+        Pin::new(&mut self.0).poll_write(cx, buf)
+    }
+    fn poll_flush(mut self: Pin<&mut Self>, cx: &mut Context<'_>) -> Poll<io::Result<()>> {
+        Pin::new(&mut self.0).poll_flush(cx)
+    }
+    fn poll_shutdown(mut self: Pin<&mut Self>, cx: &mut Context<'_>) -> Poll<io::Result<()>> {
+        Pin::new(&mut self.0).poll_shutdown(cx)
+    }
+}
+
+/// `frame::recv_proto::<preface::Endpoint>`; Ok(()) if a well-formed frame was received.
+pub async fn recv_endpoint_frame<S: io::AsyncRead + Unpin>(ctx: &ctx::Ctx, stream: &mut S, max_size: usize) -> Result<(), String> {
+    frame::recv_proto::<preface::Endpoint, S>(ctx, stream, max_size).await.map(|_| ()).map_err(|e| format!("{e:#}"))
+}
+
+/// `frame::recv_proto::<rpc::push_validator_addrs::Req>`; returns the number of entries.
+pub async fn recv_addrs_frame<S: io::AsyncRead + Unpin>(ctx: &ctx::Ctx, stream: &mut S, max_size: usize) -> Result<usize, String> {
+    frame::recv_proto::<rpc::push_validator_addrs::Req, S>(ctx, stream, max_size).await.map(|r| r.0.len()).map_err(|e| format!("{e:#}"))
+}
+
+/// The server side of `preface::accept` after the TCP accept: Encryption frame, noise handshake,
+/// Endpoint frame - over any transport (the original is tied to `MeteredStream`).
+pub async fn preface_accept<S: io::AsyncRead + io::AsyncWrite + Unpin>(ctx: &ctx::Ctx, mut stream: S) -> Result<String, String> {
+    let enc: preface::Encryption = frame::recv_proto(ctx, &mut stream, 10 * zksync_protobuf::kB).await.map_err(|e| format!("recv_proto(encryption): {e:#}"))?;
+    if enc != preface::Encryption::NoiseNN {
+        return Err("unsupported encryption".into());
+    }
+    let mut stream = noise::Stream::server_handshake(ctx, stream).await.map_err(|e| format!("server_handshake: {e:#}"))?;
+    let ep: preface::Endpoint = frame::recv_proto(ctx, &mut stream, 10 * zksync_protobuf::kB).await.map_err(|e| format!("recv_proto(endpoint): {e:#}"))?;
+    Ok(format!("{ep:?}"))
+}
+
+/// The real `preface::accept` on the next connection accepted from `listener`.
+pub async fn preface_accept_tcp(ctx: &ctx::Ctx, listener: &mut zksync_concurrency::net::tcp::Listener) -> Result<String, String> {
+    let stream = crate::metrics::MeteredStream::accept(ctx, listener).await.map_err(|e| format!("accept: {e:#}"))?;
+    let (_stream, ep) = preface::accept(ctx, stream).await.map_err(|e| format!("{e:#}"))?;
+    Ok(format!("{ep:?}"))
+}
